@@ -18,7 +18,8 @@ OPS = {'add': operator.add, 'sub': operator.sub, 'mul': operator.mul, 'truediv':
        'floordiv': operator.floordiv, 'mod': operator.mod, 'lt': operator.lt, 'le': operator.le,
        'eq': operator.eq, 'ne': operator.ne, 'gt': operator.gt, 'ge': operator.ge}
 KINDS = ['modify', 'insert_rvf', 'product', 'mixture', 'mixture2', 'combine', 'combine', 'matmul', 'uniform',
-         'noisy', 'erasure', 'prune_expand', 'example', 'example', 'stats']
+         'noisy', 'erasure', 'prune_expand', 'example', 'example', 'stats', 'stats_seq', 'stats_seq']
+STAT_NAMES = ['mean', 'central_moment', 'standard_deviation', 'standard_moment', 'median', 'mode']
 
 
 class C11(object):
@@ -29,14 +30,21 @@ class C11(object):
             "division guards; @; uniform_scalar_distribution / uniform_distribution / uniform_like / uniform; noisy; "
             "erasure; pruned / expanded sample spaces; giant_bit, n_mod_m, iid_sum, summed_dice, And/Or/Xor, bernoulli, "
             "binomial, hypergeometric, uniform(a,b) over their documented domains; mean / central / standard moments / "
-            "std / median / mode. Source distributions in 6 bases where the constructor supports them. Non-trivial = the "
-            "result merges at least two source outcomes or has >= 3 outcomes")
+            "std / median / mode; stats_seq: ONE numeric distribution object (scalar, or joint with tuple outcomes: "
+            "statistics per coordinate), dense or sparse, put through a history of queries (any subset of the six "
+            "statistics) interleaved with changes of its probabilities through the public interface -- d[o] = p on "
+            "stored and unstored outcomes, d.pmf[i] = p, d.pmf[:] = v, d[o] = p + normalize(), del d[o] + normalize(), "
+            "make_dense / make_sparse, copy, set_base round trip, points of simplex_grid(using=d, inplace=True) -- every "
+            "query judged against the definitions on the table the history specifies. Source distributions in 6 bases "
+            "where the constructor supports them. Non-trivial = the "
+            "result merges at least two source outcomes or has >= 3 outcomes (stats_seq: a query after a change of a "
+            "table with >= 2 positive outcomes)")
     tolerances = {'tables': 'exact when all probabilities are dyadic and the base is linear, else rtol 1e-9; statistics 1e-12 relative'}
     exhaustive = {}
 
     # ------------------------------------------------------------------ generation
     def gen(self, rng, tier):
-        n_cases = 320 if tier == 'quick' else 40000
+        n_cases = 365 if tier == 'quick' else 45000
         for _ in range(n_cases):
             kind = rng.choice(KINDS)
             yield self.desubnull(getattr(self, 'gen_' + kind)(rng))
@@ -184,8 +192,82 @@ class C11(object):
             a['pmf'] = [str(p) for p in base]
         return {'kind': 'stats', 'a': a, 'k': rng.randint(0, 4)}
 
+    # A history on one object: queries of the statistics interleaved with changes of the probabilities.
+    MUTATIONS = ['assign', 'assign', 'assign', 'set_norm', 'set_norm', 'del_norm', 'dense', 'sparse', 'copy', 'rebase',
+                 'grid']
+
+    def gen_stats_query(self, rng):
+        which = rng.choice([STAT_NAMES, rng.sample(STAT_NAMES, rng.randint(1, 3)), [rng.choice(STAT_NAMES[:4])]])
+        return {'op': 'query', 'stats': sorted(which), 'k': rng.randint(0, 4)}
+
+    def gen_stats_seq(self, rng):
+        joint = rng.random() < 0.4
+        if joint:
+            n = rng.randint(1, 3)
+            alph = [sorted(rng.sample(range(-2, 5), rng.randint(1, 3))) for _ in range(n)]
+            if all(len(a) == 1 for a in alph):
+                alph[rng.randrange(n)] = sorted(rng.sample(range(-2, 5), 2))
+            space = [list(o) for o in itertools.product(*alph)]
+            outs = sorted(rng.sample(space, rng.randint(1, min(5, len(space)))))
+            # every letter of every alphabet occurs in a listed outcome (possibly with probability zero)
+            for i, a in enumerate(alph):
+                for sym in a:
+                    if not any(o[i] == sym for o in outs):
+                        outs.append(rng.choice([o for o in space if o[i] == sym and o not in outs]))
+            outs.sort()
+        else:
+            outs = sorted(rng.sample(range(-3, 6), rng.randint(1, 4)))
+            space = list(outs)
+        pv, _ = gen.rand_prob_vector(rng, len(outs), rng.choice(['dyadic', 'small', 'uneven']))
+        sparse = rng.random() < 0.5
+        steps = []
+        if rng.random() < 0.85:
+            steps.append(self.gen_stats_query(rng))
+        for _ in range(rng.randint(1, 4)):
+            op = rng.choice(self.MUTATIONS)
+            st = {'op': op}
+            if op == 'assign':
+                supp = rng.sample(space, rng.randint(1, min(4, len(space))))
+                nv, _ = gen.rand_prob_vector(rng, len(supp), rng.choice(['dyadic', 'small', 'uneven']))
+                st.update(table=[[o, str(p)] for o, p in zip(supp, nv)], via=rng.choice(['setitem', 'pmf', 'pmfslice']))
+            elif op == 'set_norm':
+                st.update(out=rng.choice(space), p=str(rng.choice([Fraction(1, 4), Fraction(1, 2), Fraction(3, 4), Fraction(1),
+                                                                  Fraction(2), Fraction(1, 3), Fraction(5, 8)])))
+            elif op == 'del_norm':
+                st.update(out=rng.choice(space))
+            elif op == 'rebase':
+                st.update(base=rng.choice([2, 'e', 10]))
+            elif op == 'grid':
+                st.update(sub=rng.randint(1, 4), visit=sorted(rng.sample(range(12), rng.randint(1, 3))), k=rng.randint(0, 4),
+                          stats=sorted(rng.sample(STAT_NAMES[:4], rng.randint(1, 4))))
+            steps.append(st)
+            if rng.random() < 0.8:
+                steps.append(self.gen_stats_query(rng))
+        if steps[-1]['op'] != 'query' and steps[-1]['op'] != 'grid':
+            steps.append(self.gen_stats_query(rng))
+        return {'kind': 'stats_seq', 'joint': joint, 'outs': outs, 'pmf': [str(p) for p in pv], 'sparse': sparse,
+                'trim': sparse and rng.random() < 0.7, 'steps': steps,
+                # the statistics are also asked of a copy of the object held as log-probabilities ("numeric distributions",
+                # whatever the base)
+                'logbase': rng.choice([None, 2, 2, 'e', 10, 3.5, 0.5, 0.5])}
+
     def shrink(self, case):
-        return []
+        if case.get('kind') != 'stats_seq':
+            return []
+        out = []
+        steps = case['steps']
+        for i in range(len(steps)):
+            if len(steps) > 1:
+                c = dict(case)
+                c['steps'] = steps[:i] + steps[i + 1:]
+                out.append(c)
+        for i, st in enumerate(steps):
+            if st['op'] in ('query', 'grid') and len(st['stats']) > 1:
+                for name in st['stats']:
+                    c = dict(case)
+                    c['steps'] = steps[:i] + [dict(st, stats=[name])] + steps[i + 1:]
+                    out.append(c)
+        return out
 
     # ------------------------------------------------------------------ helpers
     def scalar_build(self, s):
@@ -690,6 +772,263 @@ class C11(object):
             r.oracle_fail = 'median %r, definition gives %r' % (med, want)
         if k == 1 and abs(float(st.central_moment(d, 1))) > 1e-12:
             r.oracle_fail = 'first central moment is %r' % float(st.central_moment(d, 1))
+
+
+    # ------------------------------------------------------------------ statistics along a history of one object
+    @staticmethod
+    def stats_definitions(rows, k):
+        """The statistics of one numeric variable from their definitions. rows: [(x, p)] exact, p > 0, sum p = 1."""
+        mean = sum(p * x for x, p in rows)
+        cm = sum(p * (x - mean) ** k for x, p in rows)
+        var = sum(p * (x - mean) ** 2 for x, p in rows)
+        top = max(p for _, p in rows)
+        cum = Fraction(0)
+        lo = hi = None
+        cums = []
+        for x, p in sorted(rows):
+            cum += p
+            cums.append(cum)
+            if hi is None and cum >= Fraction(1, 2):
+                hi = x
+            if lo is None and cum > Fraction(1, 2):
+                lo = x
+        return {'mean': mean, 'central_moment': cm, 'var': var, 'modes': sorted(x for x, p in rows if p == top),
+                'median': (lo + hi) / 2, 'cums': cums,
+                # distance of the maximum from the runner-up; 0 for an exact tie (mode() compares floats with ==, so a
+                # tie is only decidable when every float sum involved is exact)
+                'mode_margin': (Fraction(0) if sum(1 for _, p in rows if p == top) > 1
+                                else min([top - p for _, p in rows if p != top] or [Fraction(1)]))}
+
+    def run_stats_seq(self, case, drv, r):
+        dit = import_dit()
+        from dit.algorithms import stats as st
+        joint = case['joint']
+        key = (lambda o: tuple(int(x) for x in o)) if joint else (lambda o: int(o))
+        outs = [key(o) for o in case['outs']]
+        n = len(outs[0]) if joint else 1
+        if joint:
+            space = [tuple(o) for o in itertools.product(*[sorted(set(o[i] for o in outs)) for i in range(n)])]
+            d = dit.Distribution(outs, [float(Fraction(p)) for p in case['pmf']], sparse=case['sparse'], trim=case['trim'])
+        else:
+            space = list(outs)
+            d = dit.ScalarDistribution(outs, [float(Fraction(p)) for p in case['pmf']], sparse=case['sparse'], trim=case['trim'])
+        T = {o: Fraction(0) for o in space}
+        T.update({o: Fraction(p) for o, p in zip(outs, case['pmf'])})
+        r.features += ['joint=%s' % joint, 'n=%d' % n, 'sparse=%s' % case['sparse'], 'steps=%d' % len(case['steps'])]
+        tol = lambda g, w: abs(g - w) <= 1e-12 + 1e-9 * abs(w)
+        state = {'d': d, 'T': T, 'changed': [], 'exact': True}
+
+        def settable(os_):
+            return all(state['d'].has_outcome(o, null=True) for o in os_)
+
+        def readback():
+            """The table of the object through d[o]; None if it is the table the history specifies."""
+            dd, TT = state['d'], state['T']
+            exact = True
+            for o in space:
+                if not dd.has_outcome(o, null=True):
+                    if TT[o] != 0:
+                        return 'P(%s) should be %s but the outcome left the sample space' % (o, TT[o])
+                    continue
+                v = float(dd[o])
+                if not tol(v, float(TT[o])):
+                    return 'P(%s) reads %r, the history specifies %s' % (o, v, TT[o])
+                den = TT[o].denominator
+                if v != float(TT[o]) or den & (den - 1) or den > 2 ** 30:
+                    exact = False
+            state['exact'] = exact      # every probability is a dyadic stored without rounding: float sums are exact
+            return None
+
+        def query(i, names, k, label):
+            dd, TT = state['d'], state['T']
+            bad = readback()
+            if bad:
+                r.mismatch = 'step %d (%s): %s' % (i, label, bad)
+                return False
+            positive = [(o, p) for o, p in TT.items() if p > 0]
+            if state['changed'] and len(positive) >= 2:
+                r.nontrivial = True
+                r.features.append('query-after-change')
+            refs = []
+            for c in range(n):
+                mg = {}
+                for o, p in positive:
+                    x = Fraction(o[c] if joint else o)
+                    mg[x] = mg.get(x, 0) + p
+                rows = sorted(mg.items())
+                ref = self.stats_definitions(rows, k)
+                mo = drv.call('stats', [[[q(x), q(p)] for x, p in rows], k])
+                ref['model'] = {'mean': unq(mo[0]), 'central_moment': unq(mo[1]), 'modes': sorted(unq(x) for x in mo[2])}
+                refs.append(ref)
+            where = 'step %d (%s; after %s)' % (i, label, ', '.join(state['changed'][-3:]) or 'construction')
+            tab = '{%s}' % ', '.join('%s: %s' % (o, p) for o, p in sorted(positive))
+            def ask(dd, exact, tag):
+                where_ = where + tag
+                for name in names:
+                    if name == 'mode':
+                        got = st.mode(dd)
+                        if len(got) != n:
+                            r.oracle_fail = '%s: mode has %d entries for %d variables' % (where_, len(got), n)
+                            return False
+                        for c, ref in enumerate(refs):
+                            if not (exact or ref['mode_margin'] > Fraction(1, 10 ** 9)):
+                                r.features.append('mode-unjudged-float-tie')
+                                continue
+                            gm = sorted(float(x) for x in np.ravel(got[c]))
+                            if gm != [float(x) for x in ref['model']['modes']]:
+                                r.mismatch = '%s: mode[%d] impl %s model %s' % (where_, c, gm, ref['model']['modes'])
+                            if gm != [float(x) for x in ref['modes']]:
+                                r.oracle_fail = '%s: mode[%d] = %s, outcomes of maximal probability are %s; table %s' % (
+                                    where, c, gm, [str(x) for x in ref['modes']], tab)
+                                return False
+                        continue
+                    if name == 'median':
+                        got = np.ravel(st.median(dd))
+                        if len(got) != n:
+                            r.oracle_fail = '%s: median has %d entries for %d variables' % (where_, len(got), n)
+                            return False
+                        # the median of each index is the median of that index's marginal (stats.median's docstring)
+                        for c, ref in enumerate(refs):
+                            if not (exact or all(abs(cu - Fraction(1, 2)) > Fraction(1, 10 ** 9) for cu in ref['cums'])):
+                                r.features.append('median-unjudged-float-half')
+                                continue
+                            if joint:
+                                r.features.append('median-joint-judged')
+                            if abs(float(got[c]) - float(ref['median'])) > 1e-12:
+                                r.oracle_fail = '%s: median[%d] = %s, definition gives %s; table %s' % (where_, c, got, ref['median'], tab)
+                                return False
+                        continue
+                    if name == 'mean':
+                        got = st.mean(dd)
+                    elif name == 'central_moment':
+                        got = st.central_moment(dd, k)
+                    elif name == 'standard_deviation':
+                        got = st.standard_deviation(dd)
+                    else:
+                        got = st.standard_moment(dd, k)
+                    got = [float(x) for x in np.ravel(got)]
+                    if len(got) != n:
+                        r.oracle_fail = '%s: %s has %d entries for %d variables' % (where_, name, len(got), n)
+                        return False
+                    for c, ref in enumerate(refs):
+                        model = None
+                        if name == 'mean':
+                            want, model = float(ref['mean']), float(ref['model']['mean'])
+                        elif name == 'central_moment':
+                            want, model = float(ref['central_moment']), float(ref['model']['central_moment'])
+                        elif name == 'standard_deviation':
+                            want = math.sqrt(float(ref['var']))
+                        else:
+                            if ref['var'] == 0:
+                                r.features.append('standard_moment-unjudged-zero-variance')
+                                continue
+                            want = float(ref['central_moment']) / math.sqrt(float(ref['var'])) ** k
+                        if model is not None and not tol(got[c], model):
+                            r.mismatch = '%s: %s[%d] impl %r model %r' % (where_, name, c, got[c], model)
+                        if not tol(got[c], want):
+                            r.oracle_fail = '%s: %s%s[%d] = %r, definition gives %r; table %s' % (
+                                where_, name, '' if name in ('mean', 'standard_deviation') else '(k=%d)' % k, c, got[c], want, tab)
+                            return False
+                return True
+            if not ask(dd, state['exact'], ''):
+                return False
+            lb = case.get('logbase')
+            if lb is not None:
+                # the same statistics of the same measure held as log-probabilities (float conversions: ties and the
+                # half-way point of the median are judged only with a margin)
+                r.features.append('stats-on-log-copy')
+                if not ask(dd.copy(base=lb), False, ' [asked of its copy in log base %s]' % lb):
+                    return False
+            return True
+
+        for i, step in enumerate(case['steps']):
+            op = step['op']
+            dd, TT = state['d'], state['T']
+            if op == 'query':
+                if not query(i, step['stats'], step['k'], 'query ' + '/'.join(step['stats'])):
+                    return
+                continue
+            label = op
+            if op == 'assign':
+                new = {o: Fraction(0) for o in space}
+                new.update({key(o): Fraction(p) for o, p in step['table']})
+                if not settable([o for o in space if new[o] != TT[o]]):
+                    r.features.append('step-skipped')
+                    continue
+                via = step['via']
+                label = 'assign/' + via
+                if via == 'setitem':
+                    for o in space:
+                        if new[o] != TT[o]:
+                            dd[o] = float(new[o])
+                else:
+                    stored = set(dd.outcomes)
+                    for o in space:
+                        if o not in stored and new[o] != 0:
+                            dd[o] = float(new[o])
+                    vec = [float(new[o]) for o in dd.outcomes]
+                    if via == 'pmf':
+                        for j, v in enumerate(vec):
+                            dd.pmf[j] = v
+                    else:
+                        dd.pmf[:] = vec
+                state['T'] = new
+            elif op == 'set_norm':
+                o, pnew = key(step['out']), Fraction(step['p'])
+                if not settable([o]):
+                    r.features.append('step-skipped')
+                    continue
+                dd[o] = float(pnew)
+                dd.normalize()
+                TT[o] = pnew
+                tot = sum(TT.values())
+                state['T'] = {x: v / tot for x, v in TT.items()}
+            elif op == 'del_norm':
+                o = key(step['out'])
+                if not settable([o]) or TT[o] == 1:
+                    r.features.append('step-skipped')
+                    continue
+                del dd[o]
+                dd.normalize()
+                TT[o] = Fraction(0)
+                tot = sum(TT.values())
+                state['T'] = {x: v / tot for x, v in TT.items()}
+            elif op == 'dense':
+                dd.make_dense()
+            elif op == 'sparse':
+                dd.make_sparse()
+            elif op == 'copy':
+                state['d'] = dd.copy()
+            elif op == 'rebase':
+                dd.set_base(step['base'])
+                dd.set_base('linear')
+            elif op == 'grid':
+                length, sub = len(dd.pmf), step['sub']
+                if length > 9:
+                    r.features.append('step-skipped')
+                    continue
+                label = 'simplex_grid(%d, %d, using=d, inplace=True)' % (length, sub)
+                for j, g in enumerate(dit.simplex_grid(length, sub, using=dd, inplace=True)):
+                    if g is not dd:
+                        r.oracle_fail = 'step %d: %s yields another object' % (i, label)
+                        return
+                    new = {}
+                    for o in space:
+                        v = float(dd[o]) if dd.has_outcome(o, null=True) else 0.0
+                        f = Fraction(v).limit_denominator(sub)
+                        new[o] = f if abs(float(f) - v) < 1e-12 else Fraction(v)
+                    if abs(sum(new.values()) - 1) > Fraction(1, 10 ** 9):
+                        r.mismatch = 'step %d: point %d of %s has total mass %s' % (i, j, label, float(sum(new.values())))
+                        return
+                    state['T'] = new
+                    if j in step['visit']:
+                        state['changed'].append('%s point %d' % (label, j))
+                        if not query(i, step['stats'], step['k'], 'grid point %d' % j):
+                            return
+                    if j >= max(step['visit']):
+                        break
+            r.features.append('op=%s' % label.split('(')[0])
+            state['changed'].append(label)
 
 
 PROP = C11()
